@@ -151,7 +151,13 @@ def run(ctx):
     # mesh ratios > 1 in full runs need a non-default search grid
     base += [job(D, g, "det", "sphere_corner", seeds[0], opts={"search_size_locked": False, "search_grid_multiplier": 1, "search_grid_number": -1 * r})
              for D in (2, 3) for g in ("lin", "lin2") for r in (1, 2)]
+    # poll-related options
+    base += [job(D, g, "det", "sphere_corner", seeds[0], opts=o) for D in (1, 2, 3) for g in ("lin", "lin2") for o in
+             ({"force_poll_mesh": True}, {"force_poll_mesh": True, "search_grid_number": 3}, {"complete_poll": True}, {"gp_rescale_poll": 0.5}, {"search_grid_number": 4}, {"poll_training": False})]
     st = explore(base, ["ans"], 0, sink, name="runs/b0")
+    # noisy runs with noise deviations: LOW outliers make the re-estimation move the incumbent back to an earlier iterate
+    nz = [job(D, "lin", m, "sphere_in", s, opts={"max_fun_evals": 75}) for D in (1, 2) for m in ("decl", "spec") for s in seeds]
+    st = explore(nz, ["noise"], 1, sink, stats=st, name="noisy/noise-b1", pos_ok=lambda k, p, r: (p >= 30 and p % (3 if q else 1) == 0))
     adv = [job(D, "lin", "det", "adv", seeds[0], opts={"tol_mesh": 2.0**-4}) for D in (1, 2)]
     st = explore(adv, ["ans"], 1, sink, stats=st, name="adv/b1", pos_ok=(lambda k, p, r: p < 14) if q else None)
     sink.finish_cov(st)
